@@ -1078,6 +1078,41 @@ pub fn run_c12(ctx: &Ctx) -> i32 {
             out.sample(json!({"sub": "streams", "case": d, "frames": stream.frame_count()}));
         }
     });
+    // constructed residuals / subframes with long unary runs (quotients 65..300: zero runs that
+    // span several 64-bit words in the sink's default write_zeros), written stand-alone
+    let nc = ctx.tier.pick(120, 4000);
+    run_cases(ctx, "constructed", nc, &mut out, |idx, out| {
+        use flacenc::component::{FixedLpc, Residual};
+        let mut rng = Rng::for_case(ctx.seed, "C12.constructed", idx);
+        let order = rng.usize_below(3);
+        let parts = 1usize << order;
+        let plen = *rng.pick(&[4usize, 8, 16]);
+        let n = parts * plen;
+        let warm = rng.usize_below(3).min(plen);
+        let params: Vec<u8> = (0..parts).map(|_| rng.usize_below(6) as u8).collect();
+        let mut q = vec![0u32; n];
+        let mut r = vec![0u32; n];
+        for t in warm..n {
+            let p = params[t / plen];
+            q[t] = match rng.usize_below(6) {
+                0 => 65 + rng.usize_below(4) as u32,
+                1 => 128 + rng.usize_below(3) as u32,
+                2 => 200 + rng.usize_below(100) as u32,
+                _ => rng.usize_below(3) as u32,
+            };
+            r[t] = (rng.next_u64() as u32) & ((1u32 << p) - 1);
+        }
+        let d = json!({"constructed": "Residual", "order": order, "n": n, "warmup": warm, "params": params, "max_q": q.iter().max()});
+        let Ok(res) = Residual::new(order, n, warm, &params, &q, &r) else { return };
+        fault_sweep(ctx, "Residual(constructed)", &res, 600, out, &|k| rpj(ctx, "constructed", idx, json!({"case": d, "fault_at": k})));
+        if warm > 0 {
+            let w: Vec<i32> = (0..warm).map(|_| rng.range(-100, 100) as i32).collect();
+            if let Ok(f) = FixedLpc::new(&w, res, 16) {
+                let sf: SubFrame = f.into();
+                fault_sweep(ctx, "SubFrame(constructed)", &sf, 300, out, &|k| rpj(ctx, "constructed", idx, json!({"case": d, "subframe": true, "fault_at": k})));
+            }
+        }
+    });
     let fin = Finish {
         level: "fault_enumeration",
         rule: "a recording user sink fails at its k-th operation; a fault-free pass counts the N operations of the write, then every k in 0..N is injected (dense up to 1500-2500 operations per write, strided beyond, last operation always); each injected fault must come back as OutputError::Sink carrying k, without a panic, and the bits accepted must be a prefix of the fault-free bits; writes: whole streams (single-thread and multi-thread = precomputed frames, with/without extra metadata), stand-alone frames in both forms, frame headers, subframes, residuals, STREAMINFO; distinct = (component, N, k)",
